@@ -197,30 +197,50 @@ Definition iter_exact_b (nsheps : N) (asg : N -> N) (a : desc) (start stop : N)
                     else Nat.eqb (total_covers r i) 0)
           (seq 0 upto).
 
-(* ALL_SAME arrays: iteration is exact for every sub-range (both striders). *)
-Lemma covers_chunks_allsame nsheps asg a shep fuel c m i :
-  d_kind a = ALL_SAME -> 0 < d_segsize a -> c < m ->
-  (N.to_nat ((m - c) / d_segsize a) < fuel)%nat ->
+(* Contiguous kinds (ALL_SAME, FIXED_FIELDS): the main loop started anywhere covers [c, m) exactly once. *)
+Lemma covers_chunks_contig nsheps asg a shep fuel c m i :
+  (d_kind a = ALL_SAME \/ d_kind a = FIXED_FIELDS) -> 0 < d_segsize a -> c < m ->
+  (N.to_nat ((m - (c - c mod d_segsize a)) / d_segsize a) < fuel)%nat ->
   covers (chunks nsheps asg fuel a shep c m) i = if (c <=? i) && (i <? m) then 1%nat else 0%nat.
 Proof.
   intros K Hss. revert c.
   induction fuel as [|f IH]; intros c Hcm Hf; [exfalso; exact (Nat.nlt_0_r _ Hf)|].
-  cbn [chunks]. rewrite K. cbn [covers].
+  cbn [chunks].
   set (ss := d_segsize a) in *.
   assert (Hssn : ss <> 0) by lia.
-  destruct (ss <? m - c) eqn:E1.
-  - apply N.ltb_lt in E1.
-    destruct (m <=? c + ss) eqn:E2; [apply N.leb_le in E2; lia|].
-    apply N.leb_gt in E2.
-    rewrite IH; [| lia |].
-    + destruct (c <=? i) eqn:A1, (i <? c + ss) eqn:A2, (c + ss <=? i) eqn:A3, (i <? m) eqn:A4; cbn; lia.
-    + assert ((m - c) / ss = (m - (c + ss)) / ss + 1).
-      { replace (m - c) with ((m - (c + ss)) + 1 * ss) by lia. rewrite N.div_add; lia. }
-      lia.
-  - apply N.ltb_ge in E1.
-    destruct (m <=? c + ss) eqn:E2; [|apply N.leb_gt in E2; lia].
-    cbn [covers]. replace (c + (m - c)) with m by lia.
-    destruct ((c <=? i) && (i <? m)); reflexivity.
+  pose proof (N.div_mod c ss Hssn) as Hc. pose proof (N.mod_lt c ss Hssn) as Hr.
+  set (q := c / ss) in *. set (r := c mod ss) in *.
+  assert (Hc0 : c - r + ss = (q + 1) * ss) by lia.
+  rewrite Hc0.
+  assert (Hrc : r <= c) by lia.
+  set (e := (q + 1) * ss) in *.
+  set (mo := if ss - r <? m - c then ss - r else m - c).
+  assert (Hmo : c + mo = N.min e m) by (unfold mo; destruct (ss - r <? m - c) eqn:E; lia).
+  assert (Hrest : covers (if m <=? e then [] else chunks nsheps asg f a shep e m) i =
+                  if (e <=? i) && (i <? m) then 1%nat else 0%nat).
+  { destruct (m <=? e) eqn:E2.
+    - apply N.leb_le in E2. cbn [covers].
+      destruct (e <=? i) eqn:A, (i <? m) eqn:B; try reflexivity. lia.
+    - apply N.leb_gt in E2. apply IH; [lia|].
+      (* fuel: e is the start of the next segment *)
+      assert (He0 : e mod ss = 0) by (unfold e; apply N.mod_mul; exact Hssn).
+      rewrite He0, N.sub_0_r.
+      fold r in Hf.
+      assert (Hq : (m - (c - r)) / ss = (m - e) / ss + 1).
+      { replace (m - (c - r)) with ((m - e) + 1 * ss) by lia. rewrite N.div_add by exact Hssn. reflexivity. }
+      rewrite Hq in Hf. set (x := (m - e) / ss) in *. lia. }
+  assert (Hmatch : covers (match d_kind a with
+                           | FIXED_FIELDS | ALL_SAME => if m <=? e then [] else chunks nsheps asg f a shep e m
+                           | FIXED_HASH => if m <=? c - r + ss * nsheps then [] else chunks nsheps asg f a shep (c - r + ss * nsheps) m
+                           | DIST => if m <=? e then [] else
+                                     match seek nsheps asg f a shep e m with
+                                     | None => []
+                                     | Some c' => if m <=? c' then [] else chunks nsheps asg f a shep c' m
+                                     end
+                           end) i = if (e <=? i) && (i <? m) then 1%nat else 0%nat).
+  { destruct K as [K|K]; rewrite K; exact Hrest. }
+  cbn [covers]. fold mo. rewrite Hmatch.
+  destruct (c <=? i) eqn:A1, (i <? c + mo) eqn:A2, (e <=? i) eqn:A3, (i <? m) eqn:A4; cbn; lia.
 Qed.
 
 Lemma iter_exact_allsame nsheps asg a start stop :
@@ -233,10 +253,10 @@ Proof.
   assert (Hst : forall i, covers (strider nsheps asg a (d_shep a) start stop) i
                           = if (start <=? i) && (i <? stop) then 1%nat else 0%nat).
   { intros i. unfold strider. rewrite K, N.eqb_refl.
-    apply covers_chunks_allsame; try assumption.
+    apply covers_chunks_contig; try assumption; [left; exact K|].
     unfold fuel_of.
-    assert ((stop - start) / d_segsize a <= stop / d_segsize a) by (apply N.div_le_mono; lia).
-    lia. }
+    assert ((stop - (start - start mod d_segsize a)) / d_segsize a <= stop / d_segsize a) by (apply N.div_le_mono; lia).
+    set (x := (stop - (start - start mod d_segsize a)) / d_segsize a) in *. set (y := stop / d_segsize a) in *. lia. }
   assert (Hls : forall i, covers (loop_strider nsheps asg a (d_shep a) start stop) i
                           = if (start <=? i) && (i <? stop) then 1%nat else 0%nat).
   { intros i. unfold loop_strider. rewrite K, N.eqb_refl. cbn [covers].
@@ -252,31 +272,23 @@ Proof.
 Qed.
 
 (* ------------------------------------------------------------------ *)
-(* Refutations on the faithful model (the unchanged code's behaviour): witnesses found by the
-   correspondence run, see known_findings.json.                                                *)
+(* Regression inputs: the witnesses on which the striders misbehaved before the repair (known findings that were
+   fixed in /repo); on the model of the repaired code they are exact.                                          *)
 Definition hash2 : desc := create 511 16 dFIXED_HASH false 1 4096 2 0.
-
-Lemma strider_midsegment_refuted :
-  exists a start stop,
-    d_kind a = FIXED_HASH /\ start < stop <= d_count a /\ start mod d_segsize a <> 0 /\
-    iter_exact_b 2 (fun _ => 0) a start stop (iter_loop 2 (fun _ => 0) a start stop) 512 = false.
-Proof. exists hash2, 100, 314. vm_compute. repeat split; try discriminate; reflexivity. Qed.
+Example strider_midsegment_regression :
+  iter_exact_b 2 (fun _ => 0) hash2 100 314 (iter_loop 2 (fun _ => 0) hash2 100 314) 512 = true /\
+  iter_exact_b 2 (fun _ => 0) hash2 100 314 (iter 2 (fun _ => 0) hash2 100 314) 512 = true.
+Proof. vm_compute. split; reflexivity. Qed.
 
 Definition fields1 : desc := create 81920 1 dFIXED_FIELDS true 5 4096 1 0.
-
-Lemma fields_loopstrider_refuted :
-  exists a start stop,
-    d_kind a = FIXED_FIELDS /\ start < stop <= d_count a /\
-    covers (loop_strider 1 (fun _ => 0) a 0 start stop) (stop - 1) = 0%nat.
-Proof. exists fields1, 40959, 81920. vm_compute. repeat split; try discriminate; reflexivity. Qed.
+Example fields_loopstrider_regression :
+  covers (loop_strider 1 (fun _ => 0) fields1 0 40959 81920) 81919 = 1%nat.
+Proof. vm_compute. reflexivity. Qed.
 
 Definition fields2 : desc := create 2048 8 dFIXED_FIELDS true 1 4096 2 0.
-
-Lemma fields_midregion_refuted :
-  exists a start stop,
-    d_kind a = FIXED_FIELDS /\ start < stop <= d_count a /\
-    iter_exact_b 2 (fun _ => 0) a start stop (iter 2 (fun _ => 0) a start stop) 2049 = false.
-Proof. exists fields2, 100, 2048. vm_compute. repeat split; try discriminate; reflexivity. Qed.
+Example fields_midregion_regression :
+  iter_exact_b 2 (fun _ => 0) fields2 100 2048 (iter 2 (fun _ => 0) fields2 100 2048) 2049 = true.
+Proof. vm_compute. reflexivity. Qed.
 
 (* The DIST shepherd-id slot: fits for ordinary sizes, but not for every size combination. *)
 Definition slot_fits (a : desc) : bool :=
